@@ -41,15 +41,12 @@ func FetchRecord(ctx context.Context, r Resolver, fromDomain string) (policyDoma
 	policyDomain = fromDomain
 
 	// 1. Lookup using From Domain.
-	txts, err := r.LookupTXT(ctx, dns.FQDN("_dmarc."+fromDomain))
+	records, err := lookupRecords(ctx, r, fromDomain)
 	if err != nil {
-		dnsErr, ok := err.(*net.DNSError)
-		if !ok || !dnsErr.IsNotFound {
-			return "", nil, err
-		}
+		return "", nil, err
 	}
-	if len(txts) == 0 {
-		// No records or 'no such host', try orgDomain.
+	if len(records) == 0 {
+		// No DMARC records or 'no such host', try orgDomain.
 		orgDomain, err := publicsuffix.EffectiveTLDPlusOne(fromDomain)
 		if err != nil {
 			return "", nil, err
@@ -57,34 +54,40 @@ func FetchRecord(ctx context.Context, r Resolver, fromDomain string) (policyDoma
 
 		policyDomain = orgDomain
 
-		txts, err = r.LookupTXT(ctx, dns.FQDN("_dmarc."+orgDomain))
+		records, err = lookupRecords(ctx, r, orgDomain)
 		if err != nil {
-			dnsErr, ok := err.(*net.DNSError)
-			if !ok || !dnsErr.IsNotFound {
-				return "", nil, err
-			}
-		}
-		// Still nothing? Bail out.
-		if len(txts) == 0 {
-			return "", nil, nil
+			return "", nil, err
 		}
 	}
-
-	// Exclude records that are not DMARC policies.
-	records := txts[:0]
-	for _, txt := range txts {
-		if strings.HasPrefix(txt, "v=DMARC1") {
-			records = append(records, txt)
-		}
-	}
-	// Multiple records => no record.
-	if len(records) > 1 || len(records) == 0 {
+	// Multiple records => no record. Still nothing? Bail out.
+	if len(records) != 1 {
 		return "", nil, nil
 	}
 
 	rec, err = dmarc.Parse(records[0])
 
 	return policyDomain, rec, err
+}
+
+// lookupRecords returns the DMARC policy records published at _dmarc.domain.
+// TXT records that are not DMARC policies are excluded, 'no such host' is
+// reported as an empty set.
+func lookupRecords(ctx context.Context, r Resolver, domain string) ([]string, error) {
+	txts, err := r.LookupTXT(ctx, dns.FQDN("_dmarc."+domain))
+	if err != nil {
+		dnsErr, ok := err.(*net.DNSError)
+		if !ok || !dnsErr.IsNotFound {
+			return nil, err
+		}
+	}
+
+	records := txts[:0]
+	for _, txt := range txts {
+		if strings.HasPrefix(txt, "v=DMARC1") {
+			records = append(records, txt)
+		}
+	}
+	return records, nil
 }
 
 type EvalResult struct {
